@@ -155,15 +155,23 @@ def oracleSigC08Seq (rate : Nat) (txs : List (List Byte)) (spans : List (Nat × 
             | _ => false)
           -- a repeat of a text already reported within the dedup window is legitimately suppressed
           let repeatOfEarlier := (List.range i).any (fun j => txs.getD j [] == payload)
+          -- the one known way this happens (F8): the single pending slot was held by ANOTHER header
+          -- (ranked by voting count) while this one was assembled, so this one was dropped
+          let otherSom := evs.any (fun e => match e with
+            | .msg t (.som text _ _) => text != payload ∧ t + rate ≥ (mine.headD (0, 0, 0)).2.1 ∧ t ≤ endT + (3 * rate) / 2
+            | _ => false)
           if quiet ∧ !reported ∧ !repeatOfEarlier then
-            some s!"the header of transmission {i + 1} ({mine.length} bursts, channel then quiet) was not reported within 1.5 s of the end of its last burst"
+            some s!"the header of transmission {i + 1} ({mine.length} bursts, channel then quiet) was not reported within 1.5 s of the end of its last burst{if otherSom then " [cause: the single pending slot was held by another header while this one was assembled]" else ""}"
           else none)
 
 /-- C05 on a sequence: the reported messages whose text is one of the transmitted payloads form an
     in-order subsequence of the transmissions (nothing twice, nothing out of order) -/
 def oracleSigC05Seq (txs : List (List Byte)) (evs : List SigEv) : Option String :=
   let outs : List Out := evs.filterMap (fun e => match e with | .msg t m => some ⟨t, m⟩ | _ => none)
-  oracleC05 txs [] outs
+  let bursts : List SBurst := evs.filterMap (fun e => match e with
+    | .link t 'B' b => some ⟨"b0", b, t, 0⟩
+    | _ => none)
+  oracleC05 txs bursts outs
 
 /-- C05 for a single transmission: at most one StartOfMessage and at most one EndOfMessage -/
 def oracleSigC05One (msgs : List Out) : Option String :=
